@@ -4,7 +4,7 @@ CONSTANTS
   MaxTok = 0
   MaxIdx = 2
   AllowAgg = FALSE
-  DevOn = {"EmptyBraceNoFocus", "BraceNoReset", "UnionCover", "StrPatchOOB", "AutoBackZero", "ReplaceEndOnly"}
+  DevOn = {"EmptyBraceNoFocus", "BraceNoReset", "UnionCover", "AutoBackZero", "ReplaceEndOnly"}
   Salt = 0
   EmitCases = FALSE
   Prune = TRUE
